@@ -175,6 +175,9 @@ func drawC08(t *rapid.T) caseC08 {
 			}
 		}
 	}
+	if rapid.IntRange(0, 11).Draw(t, "oddcfg") == 0 {
+		gen.DrawOdd(t, &c.Cfg, "lzma2")
+	}
 	return c
 }
 
@@ -184,6 +187,9 @@ type w2Observer func(step int, st stepW2, sink []byte, model []byte, closed bool
 func runW2(c caseC08, obs w2Observer) *ev.Failure {
 	cfg := c.Cfg.W2()
 	if err := cfg.Verify(); err != nil {
+		if c.Cfg.Odd != "" {
+			return rejectedCfg
+		}
 		panic("generator produced a configuration Verify rejects: " + err.Error())
 	}
 	if h := caseHash(c); h%4 == 1 {
@@ -192,6 +198,9 @@ func runW2(c caseC08, obs w2Observer) *ev.Failure {
 	}
 	var sink bytes.Buffer
 	w, err := c.Cfg.W2().NewWriter2(&sink)
+	if err != nil && c.Cfg.Odd != "" {
+		return rejectedCfg
+	}
 	if err != nil {
 		return ev.Fail("NewWriter2: "+err.Error(), "stage", "newwriter")
 	}
@@ -323,6 +332,9 @@ func checkC08(c caseC08, rec *ev.Rec) *ev.Failure {
 		}
 		return nil
 	})
+	if oddOutcome(c.Cfg, f, rec) {
+		return nil
+	}
 	if f != nil {
 		return f
 	}
@@ -365,6 +377,28 @@ func stepsString(s []stepW2) string {
 // itself (the chunk layout of prefix + random data, parsed by the reference
 // decoder); R runs over L0-56 .. L0+8, so the operation is attempted with
 // every remaining space from about 0 to 64 bytes.
+// propsSweep proposes every lc/lp pair in 0..9 x 0..5 (pb cycling through
+// 0..4) with a small input: the library says which it accepts (for xz and
+// LZMA2 the format allows lc+lp <= 4 only), and the whole oracle applies to
+// every accepted one.
+func propsSweep(rec *ev.Rec, try func(gen.Cfg, gen.Recipe) bool) bool {
+	i := 0
+	for lc := 0; lc <= 9; lc++ {
+		for lp := 0; lp <= 5; lp++ {
+			i++
+			if i%rec.Shards != rec.Shard {
+				continue
+			}
+			cfg := gen.Cfg{LC: lc, LP: lp, PB: (lc + 2*lp) % 5, DictCap: 4096, Odd: fmt.Sprintf("props=%d/%d/%d", lc, lp, (lc+2*lp)%5)}
+			rec.Class("props_sweep")
+			if !try(cfg, gen.Recipe{{Kind: "text", K: 5, Len: 700, Seed: uint64(i)}}) {
+				return false
+			}
+		}
+	}
+	return true
+}
+
 func limitScan(rec *ev.Rec, try func(caseC08) bool) bool {
 	kinds := []string{"far", "rep", "near", "lit"}
 	for ki, kind := range kinds {
@@ -441,7 +475,15 @@ func TestC08(t *testing.T) {
 	rec := ev.New("C08", "exploration")
 	rec.Rule = "stateful generation: rapid draws a Writer2Config passing Verify and a history of up to 12 calls over {Write(segment), Write(nil), Flush, Close} followed by calls after Close; model = concatenation of accepted bytes; invariant after every step: calls succeed before Close; after a Flush the sink is a legal chunk sequence without end marker that the reference decoder decodes to exactly the model and Reader2 decodes (with 0x00 appended) to the model; a Flush with nothing pending leaves the sink unchanged; after Close reference decoder, Reader2 and liblzma decode the sink to the model; every later call fails and emits nothing; in addition a limit scan: four kinds of operation (match beyond 1 MiB, rep chain, near match, literals) placed at every fill level 0..64 bytes below the 64 KiB compressed limit of a chunk (position measured with the library, 65 offsets per kind); non-trivial = >= 1 Flush after data and >= 2 chunks; distinct = hash of the history"
 	rec.Assumptions = []string{"histories <= 12 steps and <= 5 MiB", "BinaryTree: run-like segments <= 12000 bytes"}
-	enumerate(t, rec, checkC08, func(try func(caseC08) bool) { limitScan(rec, try) })
+	enumerate(t, rec, checkC08, func(try func(caseC08) bool) {
+		if !limitScan(rec, try) {
+			return
+		}
+		propsSweep(rec, func(cfg gen.Cfg, data gen.Recipe) bool {
+			seg := data[0]
+			return try(caseC08{Cfg: cfg, Steps: []stepW2{{Op: "write", Seg: &seg}, {Op: "flush"}, {Op: "close"}}})
+		})
+	})
 	if t.Failed() {
 		return
 	}
